@@ -765,10 +765,10 @@ func init() {
 					g.Emit(rcaseA("R", r, a, true, 2, alphaX))
 				}
 			}
-			// quick tier: length 6 for two roots, rotated with the seed (the thorough tier has it for all)
+			// quick tier: length 6 for one root, rotated with the seed (the thorough tier has it for all)
 			if !g.Thorough() {
-				for j := 0; j < 2; j++ {
-					r := c17Roots[int((g.Seed*2+uint64(j))%uint64(len(c17Roots)))]
+				for j := 0; j < 1; j++ {
+					r := c17Roots[int((g.Seed+uint64(j))%uint64(len(c17Roots)))]
 					var pre6 func(cur []string)
 					pre6 = func(cur []string) {
 						if len(cur) == 4 {
